@@ -23,7 +23,7 @@ def coq_req(r):
 
 def coq_op(op):
     if op[0] == 'get':
-        return f'OGet {coq_req(op[1:3])} {pv.coq_bool(op[3])}'
+        return f'OGet {coq_req(op[1:3])} {pv.coq_bool(op[3] is True)}'   # 'bad' payload = the creator fails
     return 'OClear'
 
 
@@ -89,6 +89,8 @@ class Prop(PropBase):
         'statements (incl. `with`: release on normal and on exceptional exit); bisimilar nodes are merged '
         '(hash-consing) before numbering. add_sys_path, the Cache subclasses and get_pype_loader are NOT '
         'translated (hand model + correspondence run only)',
+        'a pipeline loader that returns a malformed (non-mapping) payload is modelled as a raising creator: '
+        'the creator of the pipeline cache is Loader._load_pipeline, which refuses such a payload',
         'creators are modelled as: succeed with a fresh object or raise; a creator that re-enters the '
         'same cache (deadlock on the non-reentrant lock) is outside the model',
         'BackoffCache starts with (and clears to) the built-in back-offs: only custom names are replayed '
@@ -135,7 +137,7 @@ class Prop(PropBase):
                 cases.append(self.gen_seq_case(rng))
         return cases
 
-    def gen_ops(self, rng, reqs, nops, p_clear=0.2, p_fail=0.25, okmap=None):
+    def gen_ops(self, rng, reqs, nops, p_clear=0.2, p_fail=0.25, okmap=None, p_bad=0.0):
         ops = []
         for _ in range(nops):
             if rng.random() < p_clear:
@@ -143,6 +145,8 @@ class Prop(PropBase):
             else:
                 r = rng.choice(reqs)
                 ok = okmap[tuple(r)] if okmap is not None else rng.random() >= p_fail
+                if okmap is None and rng.random() < p_bad:
+                    ok = 'bad'      # the loader returns a malformed (non-mapping) payload
                 ops.append(['get', r[0], r[1], ok])
         return ops
 
@@ -157,7 +161,8 @@ class Prop(PropBase):
                 reqs.append(rng.choice(PLAIN_REQS))
         else:
             reqs = rng.sample(PLAIN_REQS, rng.choice([1, 2, 2, 3]))
-        progs = [self.gen_ops(rng, reqs, rng.choice([1, 2, 2, 3])) for _ in range(n)]
+        progs = [self.gen_ops(rng, reqs, rng.choice([1, 2, 2, 3]), p_bad=0.15 if target == 'loader' else 0.0)
+                 for _ in range(n)]
         total = sum(len(p) for p in progs)
         complete = rng.random() < 0.85
         return {'kind': 'sched', 'target': target, 'nc': rng.random() < 0.15, 'progs': progs,
@@ -191,7 +196,7 @@ class Prop(PropBase):
             reqs = rng.sample(FILE_REQS, rng.choice([2, 3, 4]))
             if rng.random() < 0.5:
                 reqs = [['x', 'a+b'], ['x+a', 'b']] + reqs[:1]
-            okmap = {tuple(r): rng.random() >= 0.2 for r in reqs}
+            okmap = {tuple(r): rng.choice([True, True, True, True, True, True, False, 'bad']) for r in reqs}
         else:
             reqs = [[None, k] for k in rng.sample(NAMES, rng.choice([1, 2, 3]))]
         ops = self.gen_ops(rng, reqs, nops, okmap=okmap)
